@@ -8,7 +8,7 @@
 (* specification's answers to every query as one JSON line, which the      *)
 (* harness replays into StepMap (pipeline G).                              *)
 (***************************************************************************)
-EXTENDS PMMap, Json, IOUtils
+EXTENDS PMMap, PMMapUnrolled, Json, IOUtils
 
 MaxRanges == atoi(IOEnv.PMV_MAXRANGES)
 MaxSize   == atoi(IOEnv.PMV_MAXSIZE)
@@ -103,6 +103,14 @@ MirrorLaw == NonAdjacent => LET mp == [maps |-> <<m, InvertMap(m)>>, mirror |-> 
 NoMirrorLaw == NonAdjacent => LET mp == [maps |-> <<m, InvertMap(m)>>, mirror |-> <<>>, from |-> 0, to |-> 2] IN
              \A p \in Positions : \A a \in Assocs :
                 ~Deleted(MapRes(m, p, a)) => MappingPos(mp, p, a) = p
+
+(* bridge to the unbounded (Apalache) check: the unrolled three-range form is MapPos *)
+PadRange(i) == IF i <= Len(m.ranges) THEN m.ranges[i] ELSE <<EndOf(m.ranges), 0, 0>>
+UnrolledAgrees == Len(m.ranges) <= 3 =>
+  \A p \in Positions : \A a \in Assocs :
+     MapPos(m, p, a) = MapU(m.inv, PadRange(1)[1], PadRange(1)[2], PadRange(1)[3],
+                            PadRange(2)[1], PadRange(2)[2], PadRange(2)[3],
+                            PadRange(3)[1], PadRange(3)[2], PadRange(3)[3], p, a)
 
 (* ----- generator (pipeline G) ----- *)
 Queries == [p \in Positions |-> [a \in Assocs |->
